@@ -104,6 +104,10 @@ BitClear(w, i) == IF i \in 0..31 /\ BitIsSet(w, i)
 AddressData(a) == IF a.fam = 4 THEN <<0, 1>> \o a.packed ELSE <<0, 2>> \o a.packed
 AddressOk(a) == (a.fam = 4 /\ IsBytes(a.packed, 4)) \/ (a.fam = 6 /\ IsBytes(a.packed, 16))
 \* data given as bytes: accepted iff the family code matches the payload width
+\* RFC 7155 4.4.10.5.1: Framed-IP-Address (code 8) is an OctetString holding the 4 octets of
+\* an IPv4 address, without family code (the library files it under its Address type).
+PackedV4Ok(a) == a.fam = 4 /\ IsBytes(a.packed, 4)
+PackedV4Data(a) == a.packed
 AddressBytesOk(b) == \/ (Len(b) = 6 /\ b[1] = 0 /\ b[2] = 1)
                      \/ (Len(b) = 18 /\ b[1] = 0 /\ b[2] = 2)
 
